@@ -169,6 +169,10 @@ func (c *refCommittee) proofOK(p *symProof, H primitives.BlockHeight, voteView p
 	ok = env.And(ok, env.And(p.pp.view == p.p.view, p.pp.view < voteView))
 	ok = env.And(ok, p.pp.hash == p.p.hash)
 	ok = env.And(ok, p.pp.instance == p.p.instance)
+	// the certificate is about THIS instance (a quorum of another instance run by the same members and keys prepared
+	// a block of another chain) and its two parts are a PREPREPARE and a PREPARE header
+	ok = env.And(ok, p.pp.instance == vInstance)
+	ok = env.And(ok, env.And(p.pp.typ == protocol.LEAN_HELIX_PREPREPARE, p.p.typ == protocol.LEAN_HELIX_PREPARE))
 	ok = env.And(ok, env.And(p.ppS.isValid(), p.ppS.id == c.leader(p.pp.view)))
 	ids := []byte{p.ppS.id}
 	for j, s := range p.pS {
